@@ -25,5 +25,7 @@ impl<DB: DatabaseRef> Scheduler<DB> {
 
 /// TRUSTED stand-in for executor::build_evm (real code under contract in U21): the replay EVM over the locked state
 pub struct ReplayEvm { pub p: u8 }
-#[verifier::external_body] pub fn build_evm<S, B, C, D>(state: &mut S, cfg: B, env: C, pre: D, forbid: bool) -> (e: ReplayEvm) { unimplemented!() }
+#[verifier::external_body] pub fn build_evm<S, D>(state: &mut S, cfg: CfgEnv, env: BlockEnv, pre: D, forbid: bool) -> (e: ReplayEvm)
+    requires build_args_ok(cfg, env, forbid),      //@ID build_evm_replay.P1 : C03 C12 C11
+{ unimplemented!() }
 pub assume_specification<T: ?Sized, A: core::alloc::Allocator>[ <Arc<T, A> as AsRef<T>>::as_ref ](a: &Arc<T, A>) -> (r: &T);
